@@ -169,7 +169,9 @@ def run(chk):
         # correspondence cases: the chunked model iteration = the implementation on Dask chunks
         ch = gen.random_composition(r, len(Xg), 4)
         cfgc = dict(w=w, mu=mu, var=var, thr=None, sw=sw, eps=float(np.finfo(float).eps), cap=capg, cthr=None)
-        gterms.append(gt.make_case(cfgc, Xg, ch)["term"])
+        gc = gt.make_case(cfgc, Xg, ch)
+        if gc["well_conditioned"]:
+            gterms.append(gc["term"])
         if kt.margin_ok(init, X):
             chk_ = gen.random_composition(r, len(X), 4)
             km, steps, _ = kt.run_kfit(init, X, chk_, cap=cap, cthr=None)
